@@ -58,6 +58,17 @@ func firstPackets(thorough bool) []firstPacket {
 		// a remaining-length field of five bytes is no MQTT 3.1.1 packet, whatever it announces
 		firstPacket{desc: "CONNECT with a five-byte length field announcing 512 MiB", raw: []byte{0x10, 0x80, 0x80, 0x80, 0x80, 0x02}, expect: "close"},
 		firstPacket{desc: "CONNECT with a five-byte length field announcing 12 bytes", raw: append([]byte{0x10, 0x8c, 0x80, 0x80, 0x80, 0x00}, connectBytes("MQTT", 4, 2, 30, []byte("x"))[2:]...), expect: "close"})
+	// a protocol level the server does not speak is answered with code 1 whatever follows the
+	// level byte: a later version's CONNECT has another layout behind it [MQTT-3.1.2-2]
+	v5 := func(level byte, rest []byte) []byte {
+		body := append([]byte{0x00, 0x04, 'M', 'Q', 'T', 'T', level}, rest...)
+		return append([]byte{0x10, byte(len(body))}, body...)
+	}
+	out = append(out,
+		firstPacket{desc: "MQTT 5 CONNECT with properties (session expiry interval)", raw: v5(5, []byte{0x02, 0x00, 0x1e, 0x05, 0x11, 0x00, 0x00, 0x00, 0x0a, 0x00, 0x02, 'c', '1'}), expect: "code1"},
+		firstPacket{desc: "MQTT 5 CONNECT with an empty property list", raw: v5(5, []byte{0x02, 0x00, 0x1e, 0x00, 0x00, 0x02, 'c', '1'}), expect: "code1"},
+		firstPacket{desc: "CONNECT with protocol level 9 and an unknown layout behind it", raw: v5(9, []byte{0xff, 0xff, 0xff, 0x01}), expect: "code1"},
+		firstPacket{desc: "CONNECT with protocol level 5 that ends with the level byte", raw: v5(5, nil), expect: "code1-or-close"})
 	// (b) CONNECT field product
 	cid := []byte("c1")
 	for _, name := range []string{"MQTT", "MQIsdp", "MQTX", ""} {
